@@ -671,14 +671,18 @@ def replay_one(pid, path):
 # ------------------------------------------------------------------ driver --
 PLAN = {
     # pid: list of (cfg stem, model filter or None)
-    'C01': [('MC_LoadRef_main', None), ('MC_LoadRef_alias', None)],
-    'C02': [('MC_LoadRef_main', C02_MODELS)],
-    'C03': [('MC_LoadRef_main', C03_MODELS)],
-    'C04': [('MC_LoadRef_main', None), ('MC_LoadRef_alias', None)],
-    'C08': [('MC_LoadRef_main', None), ('MC_LoadRef_alias', None)],
-    'C10': [('MC_LoadRef_main', C10_MODELS)],
-    'C13': [('MC_LoadRef_main', C02_MODELS), ('MC_LoadRef_alias', None)],
-    'C17': [('MC_LoadRef_main', None)],
+    'C01': [('MC_LoadRef_main', None), ('MC_LoadRef_alias', None),
+            ('MC_LoadRef_gen', None)],
+    'C02': [('MC_LoadRef_main', C02_MODELS), ('MC_LoadRef_gen', None)],
+    'C03': [('MC_LoadRef_main', C03_MODELS), ('MC_LoadRef_gen', None)],
+    'C04': [('MC_LoadRef_main', None), ('MC_LoadRef_alias', None),
+            ('MC_LoadRef_gen', None)],
+    'C08': [('MC_LoadRef_main', None), ('MC_LoadRef_alias', None),
+            ('MC_LoadRef_gen', None)],
+    'C10': [('MC_LoadRef_main', C10_MODELS), ('MC_LoadRef_gen', None)],
+    'C13': [('MC_LoadRef_main', C02_MODELS), ('MC_LoadRef_alias', None),
+            ('MC_LoadRef_gen', None)],
+    'C17': [('MC_LoadRef_main', None), ('MC_LoadRef_gen', None)],
     'C18': [('MC_LoadRef_alias', None)],
 }
 
